@@ -207,6 +207,24 @@ theorem posIter_new_positions (bit : Bool) (b : BitVector) (hb : Inv b) :
   rw [getElem!_pos (abs b) i hi', List.getElem?_eq_getElem hi']
   cases (abs b)[i] <;> cases bit <;> rfl
 
+/-- the public constructors `BitVectorBitPositionsIter::{new, with_pos}` accept *any* slice of words and any
+    `n_bits`: without the representation invariant the iterator still yields, in increasing order, exactly
+    the positions `p` with `pos ≤ p < n_bits` that lie inside the slice and hold the wanted bit -/
+theorem posIter_raw_ok (bit : Bool) (b : BitVector) (hw : ∀ j, wordAt b.data j < 2 ^ 64) (pos : Nat) :
+    PosIter.collect bit b (b.nBits + 1) (PosIter.withPos bit b pos) =
+      (List.range' pos (b.nBits - pos)).filter
+        (fun i => decide (i / 64 < b.data.size) && (bitD b.data i == bit)) := by
+  obtain ⟨hI, hp⟩ := BV.withPos_PInv bit b hw pos
+  rw [BV.collect_spec bit b hw _ _ hI (by omega), hp]
+  rfl
+
+theorem posIter_raw_new_ok (bit : Bool) (b : BitVector) (hw : ∀ j, wordAt b.data j < 2 ^ 64) :
+    PosIter.collect bit b (b.nBits + 1) PosIter.new =
+      (List.range' 0 (b.nBits - 0)).filter
+        (fun i => decide (i / 64 < b.data.size) && (bitD b.data i == bit)) := by
+  rw [BV.collect_spec bit b hw _ _ (BV.new_PInv bit b.data) (by omega)]
+  rfl
+
 /-- once `next` returned `none` it keeps returning `none` (and does not move) -/
 theorem posIter_none_stable (bit : Bool) (b : BitVector) (it : PosIter)
     (h : (PosIter.next bit b it).1 = none) :
